@@ -5,7 +5,7 @@ CONSTANTS MaxObj = 2
  MaxAttach = 0
  WriteUnitVoltage = TRUE
  WriteEveryTaggedDistributed = TRUE
- LoadsInKindOrder = FALSE
+ LoadsInKindOrder = TRUE
 INIT Init
 NEXT Next
 INVARIANT Dump
